@@ -330,7 +330,11 @@ func judgeLane(seed uint64, dataLen int, t uint64, o *fw.Obs) {
 func judgeReuse(seed uint64, o *fw.Obs) {
 	o.Nontrivial()
 	r := fw.SubRng(int64(seed), "c12-reuse")
-	w := powv2.New(1 + r.Intn(4))
+	var w *powv2.Worker
+	nw := 1 + r.Intn(4)
+	if !o.Try("New", func() { w = powv2.New(nw) }) {
+		return
+	}
 	buf := make([]byte, 1+r.Intn(80))
 	r.Read(buf)
 	ctx, cancel := context.WithTimeout(context.Background(), 300*time.Second)
@@ -381,7 +385,11 @@ func judgeReuse(seed uint64, o *fw.Obs) {
 func judgeShared(seed uint64, o *fw.Obs) {
 	o.Nontrivial()
 	r := fw.SubRng(int64(seed), "c12-shared")
-	w := powv2.New(1 + r.Intn(4))
+	var w *powv2.Worker
+	nw := 1 + r.Intn(4)
+	if !o.Try("New", func() { w = powv2.New(nw) }) {
+		return
+	}
 	type job struct {
 		data []byte
 		t    uint64
